@@ -22,7 +22,8 @@ Inductive cev :=
 | KAdd (ps : list N)
 | KProt (ps : list N)
 | KReach (p : N) (pub : bool)
-| KRs (ps : list N).            (* Reachable(p, Public) for each p in turn; observed after the last *)
+| KRs (ps : list N)
+| KNew (binmax : N).            (* Reachable(p, Public) for each p in turn; observed after the last *)
 
 Definition events_of (univ : list N) (e : cev) : list event :=
   match e with
@@ -35,6 +36,7 @@ Definition events_of (univ : list N) (e : cev) : list event :=
   | KProt ps => [EProtect (peers_of univ ps)]
   | KReach p b => [EReach (peer_of univ p) b]
   | KRs ps => map (fun p => EReach (peer_of univ p) true) ps
+  | KNew b => [ENewKad b]
   end.
 
 (** several calls in a row: last return value, all p2p.Disconnect calls *)
@@ -93,7 +95,7 @@ Definition ids (l : list peer) : list N := map snd l.
 (** the model's observation for a step, shaped like the implementation's *)
 Definition model_obs (cfg : config) (st : state) (r : resp) (calls : list peer) (ob : obs) : obs :=
   mkObs r (ids calls) (depth st) (o_probe ob)
-        (bin_saturated cfg (unreach st) (o_probe ob) (known st) (conn st))
+        (bin_saturated cfg (thr st) (unreach st) (o_probe ob) (known st) (conn st))
         (match o_dump ob with
          | None => None
          | Some _ => Some (ids (reported (conn st)), ids (reported (known st)))
